@@ -53,3 +53,6 @@ Definition map_range_exceptions : list exception_entry := [
   x "services/webhooks" "service.Call" 0 [ECallStmt] RHeaderDefaults;
   x "utils/jsonpath" "visit" 0 [ECallStmt; ECallback; EMapWriteKey] RKeySelected
 ].
+
+(* reviewed uses of ambient process state in library code (package, function, callee): none today *)
+Definition ambient_allowed : list (string * string * string) := [].
